@@ -1063,6 +1063,8 @@ Ltac esc_user_op s :=
 Lemma step_esc s op s' o : EscInv s -> step s op = Ok (s', o) -> EscInv s'.
 Proof.
   intros I H. unfold step in H.
+  pose proof (esc_unb _ I) as U; pose proof (esc_xf _ I) as X; pose proof (esc_wrap _ I) as W0;
+  unfold unbonding, in_transfer, wrapped_supply in U, X, W0.
   destruct (accounts_ok op) eqn:Ha; [|discriminate].
   destruct op; simpl in Ha; unfold is_user in Ha; zb.
   - (* Lock *) unfold ep_lock in H. inv_ok H. esc_user_op s.
@@ -1075,41 +1077,42 @@ Proof.
   - (* Unlock *) unfold ep_unlock in H. inv_ok H. esc_user_op s.
   - (* UnlockEarly *) unfold ep_unlock_early in H. inv_ok H.
     constructor; unfold unbonding, in_transfer, wrapped_supply; proj; try (apply (esc_keys _ I)); intros q.
-    + rewrite usum_app. simpl. rewrite <- (esc_unb _ I q). lpt_facts. at_point H_UNSTAKE q; lia.
-    + rewrite <- (esc_xf _ I q). lpt_facts. at_point H_XFER q; lia.
-    + rewrite <- (esc_wrap _ I q). lpt_facts. at_point H_WRAP q; lia.
+    + rewrite usum_app. simpl. rewrite <- (U q). lpt_facts. at_point H_UNSTAKE q; lia.
+    + rewrite <- (X q). lpt_facts. at_point H_XFER q; lia.
+    + rewrite <- (W0 q). lpt_facts. at_point H_WRAP q; lia.
   - (* Claim *) unfold ep_claim in H.
     pose proof (fun e => claim_scan_split (s_unb s) e c (s_now s) (Z.to_nat MAX_CLAIM_UNLOCKED_TOKENS) false) as Sp.
     destruct (claim_scan (s_unb s) c (s_now s) (Z.to_nat MAX_CLAIM_UNLOCKED_TOKENS) false) as [kept got].
     simpl in Sp. inv_ok H.
     change (map (fun ub => (ub_e ub, ub_locked ub)) got) with (map ub_pay got) in *.
     constructor; unfold unbonding, in_transfer, wrapped_supply; proj; try (apply (esc_keys _ I)); intros q.
-    + pose proof (esc_unb _ I q) as U. unfold unbonding in U. rewrite (Sp q) in U. lpt_facts. at_point H_UNSTAKE q; lia.
-    + rewrite <- (esc_xf _ I q). lpt_facts. at_point H_XFER q; lia.
-    + rewrite <- (esc_wrap _ I q). lpt_facts. at_point H_WRAP q; lia.
+    + pose proof (U q) as U'. rewrite (Sp q) in U'. lpt_facts. at_point H_UNSTAKE q; lia.
+    + rewrite <- (X q). lpt_facts. at_point H_XFER q; lia.
+    + rewrite <- (W0 q). lpt_facts. at_point H_WRAP q; lia.
   - (* CancelUnbond *) unfold ep_cancel_unbond in H. inv_ok H.
     change (map (fun ub => (ub_e ub, ub_locked ub)) (queue_of (s_unb s) c)) with (map ub_pay (queue_of (s_unb s) c)) in *.
     constructor; unfold unbonding, in_transfer, wrapped_supply; proj; try (apply (esc_keys _ I)); intros q.
-    + pose proof (esc_unb _ I q) as U. unfold unbonding in U. rewrite (queue_split (s_unb s) c q) in U.
+    + pose proof (U q) as U'. rewrite (queue_split (s_unb s) c q) in U'.
       lpt_facts. at_point H_UNSTAKE q; lia.
-    + rewrite <- (esc_xf _ I q). lpt_facts. at_point H_XFER q; lia.
-    + rewrite <- (esc_wrap _ I q). lpt_facts. at_point H_WRAP q; lia.
+    + rewrite <- (X q). lpt_facts. at_point H_XFER q; lia.
+    + rewrite <- (W0 q). lpt_facts. at_point H_WRAP q; lia.
   - (* LockFunds *) unfold ep_lock_funds in H. inv_ok H.
     constructor; unfold unbonding, in_transfer, wrapped_supply; proj.
-    + intros q. rewrite <- (esc_unb _ I q). lpt_facts. at_point H_UNSTAKE q; lia.
-    + intros q. rewrite xsum_app. simpl. rewrite <- (esc_xf _ I q). lpt_facts. at_point H_XFER q; lia.
-    + intros q. rewrite <- (esc_wrap _ I q). lpt_facts. at_point H_WRAP q; lia.
-    + apply nodup_map_snoc; [apply (esc_keys _ I)|]. apply find_xf_none. exact E1.
+    + intros q. rewrite <- (U q). lpt_facts. at_point H_UNSTAKE q; lia.
+    + intros q. rewrite xsum_app. simpl. rewrite <- (X q). lpt_facts. at_point H_XFER q; lia.
+    + intros q. rewrite <- (W0 q). lpt_facts. at_point H_WRAP q; lia.
+    + apply nodup_map_snoc; [apply (esc_keys _ I)|]. apply find_xf_none. simpl.
+      destruct (find_xf (s_xf s) receiver sender); [discriminate | reflexivity].
   - (* Withdraw *) unfold ep_withdraw in H.
     destruct (negb (on_cooldown s (aget (s_rlast s) receiver))); [|discriminate].
     destruct (find_xf (s_xf s) receiver sender) as [x|] eqn:Hf; [|discriminate].
     pose proof (fun e => xfer_remove _ _ _ _ e Hf (esc_keys _ I)) as Sp.
     inv_ok H.
     constructor; unfold unbonding, in_transfer, wrapped_supply; proj.
-    + intros q. rewrite <- (esc_unb _ I q). lpt_facts. at_point H_UNSTAKE q; lia.
-    + intros q. pose proof (esc_xf _ I q) as U. unfold in_transfer in U. rewrite (Sp q) in U.
+    + intros q. rewrite <- (U q). lpt_facts. at_point H_UNSTAKE q; lia.
+    + intros q. pose proof (X q) as X'. rewrite (Sp q) in X'.
       lpt_facts. at_point H_XFER q; lia.
-    + intros q. rewrite <- (esc_wrap _ I q). lpt_facts. at_point H_WRAP q; lia.
+    + intros q. rewrite <- (W0 q). lpt_facts. at_point H_WRAP q; lia.
     + apply nodup_map_filter. apply (esc_keys _ I).
   - (* CancelTransfer *) unfold ep_cancel_transfer in H.
     destruct (c =? ADMIN); [|discriminate].
@@ -1117,27 +1120,27 @@ Proof.
     pose proof (fun e => xfer_remove _ _ _ _ e Hf (esc_keys _ I)) as Sp.
     inv_ok H.
     constructor; unfold unbonding, in_transfer, wrapped_supply; proj.
-    + intros q. rewrite <- (esc_unb _ I q). lpt_facts. at_point H_UNSTAKE q; lia.
-    + intros q. pose proof (esc_xf _ I q) as U. unfold in_transfer in U. rewrite (Sp q) in U.
+    + intros q. rewrite <- (U q). lpt_facts. at_point H_UNSTAKE q; lia.
+    + intros q. pose proof (X q) as X'. rewrite (Sp q) in X'.
       lpt_facts. at_point H_XFER q; lia.
-    + intros q. rewrite <- (esc_wrap _ I q). lpt_facts. at_point H_WRAP q; lia.
+    + intros q. rewrite <- (W0 q). lpt_facts. at_point H_WRAP q; lia.
     + apply nodup_map_filter. apply (esc_keys _ I).
   - (* Wrap *) unfold ep_wrap in H. inv_ok H.
     constructor; unfold unbonding, in_transfer, wrapped_supply; proj; try (apply (esc_keys _ I)); intros q.
-    + rewrite <- (esc_unb _ I q). lpt_facts. at_point H_UNSTAKE q; lia.
-    + rewrite <- (esc_xf _ I q). lpt_facts. at_point H_XFER q; lia.
-    + simpl. rewrite <- (esc_wrap _ I q). lpt_facts. at_point H_WRAP q; lia.
+    + rewrite <- (U q). lpt_facts. at_point H_UNSTAKE q; lia.
+    + rewrite <- (X q). lpt_facts. at_point H_XFER q; lia.
+    + simpl. rewrite <- (W0 q). lpt_facts. at_point H_WRAP q; lia.
   - (* Unwrap *) unfold ep_unwrap in H. inv_ok H.
     pose proof (fun q => lsum_debit _ _ _ _ _ q Hb) as W. clear Hb.
     constructor; unfold unbonding, in_transfer, wrapped_supply; proj; try (apply (esc_keys _ I)); intros q.
-    + rewrite <- (esc_unb _ I q). lpt_facts. at_point H_UNSTAKE q; lia.
-    + rewrite <- (esc_xf _ I q). lpt_facts. at_point H_XFER q; lia.
-    + rewrite (W q). rewrite <- (esc_wrap _ I q). lpt_facts. at_point H_WRAP q; lia.
+    + rewrite <- (U q). lpt_facts. at_point H_UNSTAKE q; lia.
+    + rewrite <- (X q). lpt_facts. at_point H_XFER q; lia.
+    + rewrite (W q). rewrite <- (W0 q). lpt_facts. at_point H_WRAP q; lia.
   - (* WTransfer *) unfold ep_wtransfer in H. inv_ok H.
     pose proof (fun q => lsum_debit _ _ _ _ _ q Hb) as W. clear Hb.
     constructor; unfold unbonding, in_transfer, wrapped_supply; proj; try (apply (esc_keys _ I)); intros q;
-      try (apply (esc_unb _ I)); try (apply (esc_xf _ I)).
-    simpl. rewrite (W q). rewrite (esc_wrap _ I q). unfold wrapped_supply. destruct (e =? q); lia.
+      try (apply U); try (apply X).
+    simpl. rewrite (W q). rewrite (W0 q). destruct (e =? q); lia.
   - discriminate.
   - (* Advance *) unfold ep_advance in H. inv_ok H. eapply (esc_frame s); try reflexivity; auto.
 Qed.
